@@ -16,7 +16,8 @@
 (***************************************************************************)
 EXTENDS Spake2, Toy
 
-CONSTANTS PAIRING, DIFF, WSET, TAMPER      \* TAMPER in {"none", "one", "two"}
+CONSTANTS PAIRING, DIFF, WSET, TAMPER,     \* TAMPER in {"none", "one", "two"}
+          XSET                             \* the secret scalars tried (all of [0,q) except in the quick one-sided run)
 
 CA == IF PAIRING = "AB" THEN "A" ELSE "S"
 CB == IF PAIRING = "AB" THEN "B" ELSE "S"
@@ -60,9 +61,9 @@ TamperNext ==
   \/ /\ Len(st) = 1
      /\ New(CB, PSB, PwB(st[1].pw), IdsB)
   \/ /\ Len(st) = 2 /\ ~st[1].started
-     /\ \E x \in AllScalars(G1) : Start(1, x)
+     /\ \E x \in AllScalars(G1) \cap XSET : Start(1, x)
   \/ /\ Len(st) = 2 /\ st[1].started /\ ~st[2].started
-     /\ \E y \in AllScalars(G1) : Start(2, y)
+     /\ \E y \in AllScalars(G1) \cap XSET : Start(2, y)
   \/ /\ Len(st) = 2 /\ st[2].started /\ aux[1].nfin = 0 /\ aux[2].nfin = 0
      /\ \/ Finish(1, SentBy(2))
         \/ TAMPER = "one" /\ \E b \in AllShort(0) : Finish(1, <<PeerSide(CA)>> \o b)
